@@ -315,6 +315,17 @@ func (env *SpecEnv) coerce(a, b Val) (Val, Val) {
 
 func (env *SpecEnv) eqVals(a, b Val) Term {
 	a, b = env.coerce(a, b)
+	// a by-value struct field is addressed through its sub-object: load it to compare with a struct value
+	deref := func(p, o Val) Val {
+		if p.K == VTerm && p.T.Sort == SRef && o.K == VStruct && p.Typ != nil {
+			if pt, ok := types.Unalias(p.Typ).Underlying().(*types.Pointer); ok && isStructType(pt.Elem()) {
+				v := env.st.loadStruct(pt.Elem(), p.T)
+				return v
+			}
+		}
+		return p
+	}
+	a, b = deref(a, b), deref(b, a)
 	if a.K == VSlice && b.K == VTerm {
 		a, b = b, a
 	}
